@@ -670,7 +670,10 @@ def evaluate(res, gens, cases, model, stats, fam_of):
             kind = "hang" if s.exc[0] == "hang" else "crash"
             lastraw = [t.raw for t in steps if t.raw is not None]
             trig = trigger_of(lastraw[-1] if lastraw else {}, "?")
-            if kind == "hang" and (io or restored) and not rerun_hang(g, s.cmd, stats):
+            if kind == "hang" and stats.get("variant") == "asan":
+                # the sanitizer build is ~10x slower: time-outs are judged by the plain pass only
+                stats["library_failures_outside_io"]["timeout-under-sanitizer"] = stats["library_failures_outside_io"].get("timeout-under-sanitizer", 0) + 1
+            elif kind == "hang" and (io or restored) and not rerun_hang(g, s.cmd, stats):
                 stats["slow_cases_not_hanging_with_10x_budget"] += 1
             elif kind == "crash" and (io or restored) and (c[0], fam, trig) not in stats["confirmed_crash_classes"] and not rerun_hang(g, s.cmd, stats, what="crash"):
                 # not reproducible when the case runs alone: memory corrupted by an earlier call (e.g. an out-of-bounds write of a history call)
